@@ -676,6 +676,102 @@ def ob_pmat_voigt(dim):
     return Verdict(DISCHARGED, backend="ring-normal-form", sub=3 * N * N)
 
 
+def ob_hetero(law, dim, planeStress):
+    """per-element (Ne,) and per-Gauss-point (Ne, nPg) parameter fields, possibly mixed with scalars: the law at (e, p) is the homogeneous law of the
+    parameters at (e, p); after a parameter is re-assigned (scalar -> field, field -> other field, field -> scalar) the next read gives the new law."""
+    from EasyFEA import Models
+    E_ = Models.Elastic
+    Ne, nPg = 3, 2
+    rng = np.random.default_rng(23)
+    base = {"Isotropic": dict(E=3.0, v=0.25), "TransverselyIsotropic": dict(El=11.0, Et=3.0, Gl=1.7, vl=0.26, vt=0.31),
+            "Orthotropic": dict(E1=11.0, E2=5.0, E3=3.0, G23=1.1, G13=1.4, G12=1.9, v23=0.2, v13=0.24, v12=0.3)}[law]
+    axes = {"Isotropic": {}, "TransverselyIsotropic": dict(axis_l=(2, 1, 0), axis_t=(-1, 2, 0)), "Orthotropic": dict(axis_1=(2, 1, 0), axis_2=(-1, 2, 0))}[law]
+    cls = getattr(E_, law)
+
+    def build(params):
+        return cls(dim, planeStress=planeStress, **params, **axes)
+
+    def field(val, kind):
+        if kind == "s":
+            return val
+        f = val * (1 + 0.2 * rng.uniform(-1, 1, size=(Ne,) if kind == "e" else (Ne, nPg)))
+        return f
+
+    def at(v, e, p):
+        v = np.asarray(v)
+        return float(v) if v.ndim == 0 else (float(v[e]) if v.ndim == 1 else float(v[e, p]))
+    names = list(base)
+    n = 0
+    # one kind of field per model (the constructors combine the parameters with plain numpy arithmetic: a per-element field next to a per-point
+    # field is rejected by numpy's broadcasting, it is not an accepted input), scalars may be mixed in
+    patterns = [{names[0]: "e"}, {names[0]: "ep"}, {names[0]: "e", names[1]: "e"}, {nm: "ep" for nm in names}, {nm: "e" for nm in names}, {names[-1]: "e"}, {names[1]: "ep", names[-1]: "ep"}]
+
+    def check(model, params, what):
+        nonlocal n
+        C, S = np.asarray(model.C), np.asarray(model.S)
+        kinds = [np.asarray(v).ndim for v in params.values()]
+        lead = (Ne, nPg) if 2 in kinds else ((Ne,) if 1 in kinds else ())
+        if C.shape[:-2] != lead:
+            raise Refuted(f"{law} dim {dim}: {what}: C has leading shape {C.shape[:-2]}, parameters have {lead}", signature=f"hetero:{law}:{dim}:shape", replay=dict(confirmed=True))
+        for e in range(Ne):
+            for p_ in range(nPg):
+                ref = build({k: at(v, e, p_) for k, v in params.items()})
+                Cr, Sr = np.asarray(ref.C), np.asarray(ref.S)
+                Ce = C if not lead else (C[e] if len(lead) == 1 else C[e, p_])
+                Se = S if not lead else (S[e] if len(lead) == 1 else S[e, p_])
+                n += 2
+                ec, es = float(np.abs(Ce - Cr).max() / np.abs(Cr).max()), float(np.abs(Se - Sr).max() / np.abs(Sr).max())
+                if not (ec < 1e-12 and es < 1e-12):
+                    raise Refuted(f"{law} dim {dim} planeStress={planeStress}: {what}: the law at element {e}, point {p_} differs from the homogeneous law of the parameters there (C {ec:.2e}, S {es:.2e})",
+                                  cex=dict(law=law, dim=dim, what=what, e=e, p=p_), signature=f"hetero:{law}:{dim}:value", replay=dict(confirmed=True, err_C=ec, err_S=es))
+    for pat in patterns:
+        params = {k: field(v, pat.get(k, "s")) for k, v in base.items()}
+        m = build(params)
+        check(m, params, f"fields {pat}")
+        # lazy update: re-assign parameters one after the other, read after each
+        fk = next(iter(pat.values()))
+        for k in names[:2] + names[-1:]:
+            for kind in (fk, "s", fk):
+                params[k] = field(base[k] * 1.1, kind)
+                setattr(m, k, params[k])
+                check(m, params, f"fields {pat}, then {k} re-assigned as {'scalar' if kind == 's' else kind}")
+    return Verdict(DISCHARGED, backend="native run of the real law classes vs the homogeneous law point by point", sub=n)
+
+
+def ob_hetero_aniso(dim, voigt):
+    """Anisotropic law given as a field of matrices (Ne, n, n) or (Ne, nPg, n, n), in Voigt or Kelvin-Mandel notation, with oblique unnormalised axes:
+    the law at (e, p) is the law built from the matrix at (e, p); Set_C with a field replaces it."""
+    from EasyFEA import Models
+    A_ = Models.Elastic.Anisotropic
+    Ne, nPg = 3, 2
+    n_ = 3 if dim == 2 else 6
+    rng = np.random.default_rng(29)
+    ax = dict(axis1=(2, 1, 0), axis2=(-1, 2, 0))
+
+    def spd(lead):
+        A = rng.normal(size=lead + (n_, n_))
+        return A @ np.swapaxes(A, -1, -2) + n_ * np.eye(n_)
+    n = 0
+    for lead in ((Ne,), (Ne, nPg)):
+        C0, C1 = spd(lead), spd(lead)
+        m = A_(dim, C0, useVoigtNotation=voigt, **ax)
+        for what, Cin in (("constructor", C0), ("Set_C", C1)):
+            if what == "Set_C":
+                m.Set_C(C1, useVoigtNotation=voigt)
+            C, S = np.asarray(m.C), np.asarray(m.S)
+            if C.shape[:-2] != lead:
+                raise Refuted(f"Anisotropic dim {dim}: {what}: C has leading shape {C.shape[:-2]}, input {lead}", signature=f"hetero:aniso:{dim}:shape", replay=dict(confirmed=True))
+            for idx in np.ndindex(lead):
+                ref = A_(dim, Cin[idx], useVoigtNotation=voigt, **ax)
+                n += 2
+                ec = float(np.abs(C[idx] - np.asarray(ref.C)).max() / np.abs(np.asarray(ref.C)).max())
+                es = float(np.abs(S[idx] - np.asarray(ref.S)).max() / np.abs(np.asarray(ref.S)).max())
+                if not (ec < 1e-12 and es < 1e-11):
+                    raise Refuted(f"Anisotropic dim {dim} ({'Voigt' if voigt else 'Kelvin-Mandel'} input, {what}): the law at {idx} differs from the law built from the matrix there (C {ec:.2e}, S {es:.2e})",
+                                  cex=dict(dim=dim, voigt=voigt, index=list(idx)), signature=f"hetero:aniso:{dim}:{voigt}", replay=dict(confirmed=True, err_C=ec, err_S=es))
+    return Verdict(DISCHARGED, backend="native run vs the homogeneous law point by point", sub=n)
+
+
 HALF_TURNS = {"x": [[1, 0, 0], [0, -1, 0], [0, 0, -1]], "y": [[-1, 0, 0], [0, 1, 0], [0, 0, -1]], "z": [[-1, 0, 0], [0, -1, 0], [0, 0, 1]]}
 
 
@@ -717,6 +813,15 @@ def build(tier, seed):
                       clause="axes given with 2 components: P orthogonal for any lengths, == the [11,22,12] block of the 3-component result, Apply_Pmat == Q-rotated 2-D fourth-order tensor (both directions), all in-plane rotations", timeout=600))
     for dim in (2, 3):
         obs.append(Ob(f"C11.Pmat.voigt.{dim}d", ob_pmat_voigt, (dim,), "P", (fu("Get_Pmat"),), clause="(Ps, Pe) are the Voigt images of the Kelvin-Mandel matrix; Ps Pe^T == I; all rotations, any axis lengths", timeout=600))
+    for law in ("Isotropic", "TransverselyIsotropic", "Orthotropic"):
+        for dim, ps in ((2, True), (2, False), (3, False)):
+            obs.append(Ob(f"C11.hetero.{law}.{dim}d{'.ps' if ps else ''}", ob_hetero, (law, dim, ps), "X", (fl(f"{law}._Behavior"), fl(f"{law}._Update"), fu("Heterogeneous_Array")),
+                          bound="Ne = 3, nPg = 2; 7 patterns of scalar + per-element or scalar + per-point parameters; 9 re-assignments each; floats",
+                          clause="the law at (e, p) is the homogeneous law of the parameters at (e, p); re-assigning a parameter (scalar <-> field) changes the law on the next read", timeout=600))
+    for dim in (2, 3):
+        for voigt in (False, True):
+            obs.append(Ob(f"C11.hetero.Anisotropic.{dim}d.{'voigt' if voigt else 'km'}", ob_hetero_aniso, (dim, voigt), "X", (fl("Anisotropic._Behavior"), fl("Anisotropic.Set_C"), fu("Apply_Pmat")),
+                          bound="Ne = 3, nPg = 2, random SPD matrices, floats", clause="a field of stiffness matrices gives at (e, p) the law of the matrix at (e, p), in both notations, after construction and after Set_C", timeout=600))
     obs.append(Ob("canary.iso.reduction", ob_iso_reduction, (True, True), "P", expect=REFUTED, timeout=120))
     obs.append(Ob("canary.TI.inverse", ob_material_inverse, ("TransverselyIsotropic", True), "P", expect=REFUTED, timeout=300))
     functions = {}
@@ -734,8 +839,8 @@ def build(tier, seed):
                       "np.linalg.inv contract: exact inverse", "sympy normal form; z3 5.1 nlsat / cvc5 1.4",
                       "Cayley parametrisation covers every rotation except half-turns (added as concrete cases)"],
         assumptions=["machine arithmetic treated as mathematical", "float self-checks inside _Behavior (norm-based asserts) are not evaluated; their content is the obligation *.inverse",
-                     "admissible moduli = positivity + thermodynamic conditions stated in the obligation", "heterogeneous (per-element) parameter fields, Anisotropic law and lazy update are not covered here"],
+                     "admissible moduli = positivity + thermodynamic conditions stated in the obligation", "heterogeneous parameter fields, the Anisotropic field form and the lazy update are covered by bounded native runs only (C11.hetero.*, Ne = 3, nPg = 2)", "a per-element field next to a per-point field in one model is not an accepted input (numpy broadcasting rejects it unless Ne == nPg): not exercised"],
         functions=functions,
         dropped=["D1-D5", "class-level parameter descriptors are not assembled: moduli are set as plain instance attributes"],
-        not_attempted=["heterogeneous (per-element / per-Gauss-point) parameter fields", "C11.lazy (parameter change -> recompute on next read; effect contract)"],
+        not_attempted=["symbolic treatment of heterogeneous parameter fields (bounded native runs instead)"],
     )
